@@ -112,7 +112,7 @@ func vfC19Gen(rt *rapid.T) vfC19Case {
 	if rapid.IntRange(0, 9).Draw(rt, "long") == 0 {
 		maxLen = 300
 	}
-	c.List = rapid.SliceOfN(elem, 0, maxLen).Draw(rt, "list")
+	c.List = vfListOf(rt, "list", elem, 0, maxLen)
 	c.Perm = rapid.Permutation(vfIota(len(c.List))).Draw(rt, "perm")
 	c.K = rapid.IntRange(-3, len(c.List)+3).Draw(rt, "k")
 	c.Cutoff = rapid.IntRange(-3, 6).Draw(rt, "cutoff")
@@ -307,6 +307,7 @@ func vfRankIntervals(m map[uint32]float64, ascending bool) (map[uint32][2]int, b
 }
 
 func vfC19Run(c vfC19Case, ctx *vfCtx) *vfViolation {
+	ctx.HistoryLen("list", len(c.List))
 	fold := vfFoldOf(c.List)
 	dupl := false
 	for _, f := range fold {
